@@ -172,7 +172,38 @@ def gen(tier, rng):
     return obs, facts, witnesses
 
 
-FLOOR = {"quick": dict(eq=1500, facts=3000, wit=20), "thorough": dict(eq=10000, facts=15000, wit=10)}
+FLOOR = {"quick": dict(eq=1500, facts=3000, wit=20, limb=36), "thorough": dict(eq=10000, facts=15000, wit=10, limb=144)}
+
+
+def limb_plan(tier):
+    """scaled_integer over MULTI-LIMB reps: a + b, a - b, a * b for all limb values (limb algebra, DESIGN 2.5b):
+    the result's representation equals sval(a) 2^(Ea - Er) +- sval(b) 2^(Eb - Er) (Er = min) resp. sval(a) sval(b), modulo
+    2^(result width)"""
+    from vlib import limbalg as la
+    reps = [("cnl::wide_integer<200, int>", 224, 32, True), ("cnl::wide_integer<129, std::int64_t>", 192, 64, True), ("cnl::wide_integer<200, unsigned>", 224, 32, False)]
+    exps = [(0, 0), (-10, -20), (-20, -10), (5, -3)]
+    if tier != "quick":
+        reps += [("cnl::wide_integer<300, std::uint64_t>", 320, 64, False), ("cnl::wide_integer<140, std::int16_t>", 144, 16, True), ("cnl::wide_integer<255, std::int64_t>", 256, 64, True)]
+        exps += [(-1, -64), (-70, 0), (3, 3), (-33, -32)]
+    src, plan, k = tc.PRELUDE["clang"], [], 0
+    for (R, W, L, sg) in reps:
+        for (Ea, Eb) in exps:
+            A, B = "cnl::scaled_integer<%s, cnl::power<%d>>" % (R, Ea), "cnl::scaled_integer<%s, cnl::power<%d>>" % (R, Eb)
+            for op, sym in (("add", "+"), ("sub", "-"), ("mul", "*")):
+                f = "sk%d" % k
+                k += 1
+                src += 'extern "C" auto %s(%s a, %s b) { return a %s b; }\n' % (f, A, B, sym)
+                Er = min(Ea, Eb)
+
+                def spec(cx, v, RW, op=op, Ea=Ea, Eb=Eb, Er=Er, W=W, sg=sg):
+                    a = la.sval(cx, v[0], W) if sg else v[0]
+                    b = la.sval(cx, v[1], W) if sg else v[1]
+                    if op == "mul":
+                        return la.pmul(a, b)
+                    return la.padd(la.pscale(a, 1 << (Ea - Er)), la.pscale(b, 1 << (Eb - Er)), 1 if op == "add" else -1)
+                plan.append(("limb/%s/%s/%d,%d" % (op, R.replace("cnl::", "").replace("std::", ""), Ea, Eb), "scaled_integer<%s, power<%d>> %s scaled_integer<.., power<%d>>" % (R.replace("cnl::", ""), Ea, sym, Eb),
+                             f, [("a", W, L), ("b", W, L)], None, spec))
+    return src, plan
 
 
 def run(tier, seed, work):
@@ -200,11 +231,14 @@ def run(tier, seed, work):
     common.floor_check(r, "kernel pairs proved", n["proved"], FLOOR[tier]["eq"])
     common.floor_check(r, "type facts proved", nf["proved"], FLOOR[tier]["facts"])
     common.floor_check(r, "compile-fail witnesses rejected", nw, min(FLOOR[tier]["wit"], len(wit)))
+    lsrc, lplan = limb_plan(tier)
+    lcnt = common.limb_block(r, work, "c01limb", lsrc, lplan, seed, FLOOR[tier]["limb"], "multi-limb scaled_integer obligations proved")
     good = [o for o in obs if o.status == "proved"]
     r.coverage = {
         "programs": len(obs), "disagreements_checked": n["refuted"], "kernel_pairs_proved": n["proved"],
         "type_facts": len(facts), "type_facts_proved": nf["proved"], "type_facts_refuted": nf["refuted"],
         "compile_fail_witnesses": len(wit), "compile_fail_witnesses_rejected": nw,
+        "multi_limb_obligations": len(lplan), "multi_limb_proved": lcnt["proved"], "multi_limb_refuted": lcnt["refuted"], "multi_limb_undecided": lcnt["undecided"],
         "rule": "unwrap(a op b) == (P(a)*Radix^dl) op (P(b)*Radix^dr) as normal forms of optimised IR, one of dl,dr zero; result exponent min / sum as type facts",
         "samples": [{"key": o.key, "cnl": o.cnl, "ref": o.refs[o.matched_ref], "normal_form": o.nf_cnl.pretty} for o in rng.sample(good, min(6, len(good)))],
         "exhaustive": tier == "thorough",
